@@ -109,7 +109,7 @@ PROPS['C02'] = {
 
 PROPS['C06'] = {
     'level': 'other',
-    'verus_units': ['bloom', 'cuckoo', 'lemma_cms'],
+    'verus_units': ['bloom', 'cuckoo', 'quotient', 'lemma_cms'],
     'kani': {'quick': BLOOM_K[1:] + CMS_MERGE[:1] + HLL_MERGE + QF_UNION_QUICK, 'thorough': CMS_MERGE[1:] + QF_UNION_THOROUGH},
     'explanation': 'merge contracts over the abstract view: Bloom union = bitwise or (Verus), Cuckoo union = class-wise sum of multisets with full rollback on Err (Verus, unbounded), CMS merge = cell-wise checked sum, HLL merge = register-wise max, Quotient union = canonical layout of A u B / Err iff it does not fit (Kani, bounded sizes). Commutativity/associativity/idempotence follow from or / + / max / set union on the views.',
     'trusted_base': COMMON_TRUST + [HASH_TRUST, INTVEC_TRUST, FBS_TRUST, PANIC_ASSERTS],
@@ -144,7 +144,7 @@ PROPS['C10'] = {
 
 PROPS['C11'] = {
     'level': 'other',
-    'verus_units': ['helpers', 'bloom', 'cuckoo', 'hll', 'reservoir', 'lossy', 'cmsheap', 'cms'],
+    'verus_units': ['helpers', 'bloom', 'cuckoo', 'quotient', 'hll', 'reservoir', 'lossy', 'cmsheap', 'cms'],
     'kani': {
         'quick': [
             ('helpers.rs', 'c11_all_zero_intvector_u64', 'complete in element_bits (1..=64); bounded(len<=4)'),
@@ -164,21 +164,21 @@ PROPS['C11'] = {
 }
 
 PROPS['C12'] = {
-    'level': 'other',
-    'verus_units': ['cuckoo'],
+    'level': 'proof',
+    'verus_units': ['cuckoo', 'quotient'],
     'kani': {'quick': CUCKOO_K[1:] + QF_QUICK[:4] + QF_UNION_QUICK, 'thorough': QF_THOROUGH + QF_UNION_THOROUGH},
-    'explanation': 'Cuckoo: Verus proof (unbounded, every eviction outcome) that insert Err => every slot and the counter are as before (undo log replayed backwards), union Err => table and counter restored; Quotient: Kani one-step harnesses from every canonical state of a small table: Err => all four arrays and the counter unchanged, other operand untouched.',
+    'explanation': 'Verus proofs, unbounded in table size and for every eviction outcome: Cuckoo insert Err => every slot and the counter are as before (undo log replayed backwards), union Err => table and counter restored; Quotient insert Err / Ok(false) => all four arrays and the counter unchanged (the capacity test precedes every write), union Err => all four arrays and the counter restored from the backup, whatever the partial transfer did. The other operand is a shared borrow. Kani harnesses (bounded) serve as counterexample engine and check the iterator-order rewrite.',
     'trusted_base': COMMON_TRUST + [HASH_TRUST, INTVEC_TRUST, PANIC_ASSERTS,
                                     'R2: `for (pos, data) in log.iter().rev().cloned()` rewritten to an index loop in the Verus unit; the real loop is checked against the reverse-order oracle by kani harness c12_cuckoo_restore_state_reverse_order (log <= 3)'],
-    'assumptions': ['quotient filter part is a bounded stand-in (table size)'],
+    'assumptions': ['R9: the two panic sites of the quotient filter whose reachability depends on the canonical layout are modelled as diverging (partial correctness)'],
     'not_decided': [],
 }
 
 PROPS['C13'] = {
     'level': 'other',
-    'verus_units': [],
+    'verus_units': ['quotient'],
     'kani': {'quick': QF_QUICK + QF_QR, 'thorough': QF_THOROUGH},
-    'explanation': 'Kani one-step contract harnesses: for EVERY set S of fingerprint classes of a small table (state = canonical layout enc(S), encoder written independently of the implementation) and every fingerprint: scan answers membership in S, insert_internal returns Ok(false)/Err/Ok(true) exactly as stated and the resulting state EQUALS enc(S + {(q,r)}) on all slots. History length is unbounded (induction over one-step from arbitrary state); table size is bounded. calc_quotient_remainder: complete over all 64-bit hashes for four (bq,br).',
+    'explanation': 'Verus (unbounded): calc_quotient_remainder returns exactly the low bq+br hash bits split at br (bit-vector proof for all bq, br), Err(Full) only at len() == 2^bq and never below, Ok(false)/Err leave the state untouched, Ok(true) increments len, every index stays in range. Exact membership (the canonical-layout invariant) is bounded: Kani one-step contract harnesses: for EVERY set S of fingerprint classes of a small table (state = canonical layout enc(S), encoder written independently of the implementation) and every fingerprint: scan answers membership in S, insert_internal returns Ok(false)/Err/Ok(true) exactly as stated and the resulting state EQUALS enc(S + {(q,r)}) on all slots. History length is unbounded (induction over one-step from arbitrary state); table size is bounded. calc_quotient_remainder: complete over all 64-bit hashes for four (bq,br).',
     'trusted_base': COMMON_TRUST + ['the 40-line canonical-layout encoder in kani/harness/filters__quotientfilter.rs (independent oracle)'],
     'assumptions': ['table sizes 2 slots (quick) and 4 slots (thorough) only'],
     'not_decided': ['tables with more than 4 slots (an unbounded proof needs the canonical-layout invariant as an inductive Verus invariant over scan and the swap chain)'],
@@ -238,11 +238,11 @@ PROPS['C18'] = {
 
 PROPS['C19'] = {
     'level': 'other',
-    'verus_units': ['bloom', 'cuckoo', 'hll', 'reservoir', 'lossy', 'cmsheap'],
+    'verus_units': ['bloom', 'cuckoo', 'quotient', 'hll', 'reservoir', 'lossy', 'cmsheap'],
     'kani': {'quick': TD19 + CMS_EMPTY + CMS_MERGE[:1] + HLL_MERGE + [('filters__quotientfilter.rs', 'c19_qf_clear_is_fresh', 'bounded(4 slots, 16-bit remainders; arbitrary array contents)'),
                                                                   ('filters__cuckoofilter.rs', 'c19_cuckoo_clear_is_fresh', 'bounded(2x2 table)')],
              'thorough': []},
-    'explanation': 'clear() contracts: every field that later behaviour reads equals the fresh value (hidden counters included) -- Verus for Bloom, Cuckoo, HLL, Reservoir, LossyCounter (unbounded); Kani for CMS, TDigest (n_samples!), Quotient (bounded). is_empty exactness likewise. Equal states + deterministic code => equal continuations.',
+    'explanation': 'clear() contracts: every field that later behaviour reads equals the fresh value (hidden counters included) -- Verus for Bloom, Cuckoo, Quotient, HLL, Reservoir, LossyCounter, CMSHeap (unbounded); Kani for CMS, TDigest (n_samples!) (bounded). is_empty exactness likewise. Equal states + deterministic code => equal continuations.',
     'trusted_base': COMMON_TRUST + [INTVEC_TRUST, FBS_TRUST],
     'assumptions': ['clone(): all nine types are derive(Clone) over owned data (Rc<T> in CMSHeap is shared but T is never mutated); std Clone contracts assumed, not verified'],
     'not_decided': ['clone() independence is not under contract'],
@@ -288,8 +288,8 @@ MANIFEST_TEXT = {
     'C11': _mt('Allocation-size contracts: Verus (unbounded) for all_zero_intvector, Bloom, Cuckoo, HLL, Reservoir; bounded Kani for CMS, Quotient, TDigest backlog.',
                'Trusted: IntVector/FixedBitSet/Vec allocation behaviour as stated in the stubs; TDigest centroid count, LossyCounter/CMSHeap growth not decided.',
                'Verus contracts on extracted real functions + Kani contract harnesses'),
-    'C12': _mt('Cuckoo: unbounded Verus proof of rollback on every failing insert/union; Quotient: bounded Kani one-step harnesses.',
-               'Trusted: IntVector stub, hashing/RNG models; quotient part bounded by table size.', 'Verus contracts (cuckoo) + Kani contract harnesses (quotient, bounded)'),
+    'C12': _mt('Unbounded Verus proofs for both filters: every failing insert/union leaves (cuckoo: restores) every array and the counter; Kani harnesses as counterexample engine.',
+               'Trusted: IntVector/FixedBitSet stubs, hashing/RNG models; two canonical-layout-dependent panic sites of the quotient filter modelled as diverging.', 'Verus contracts on extracted real functions + Kani contract harnesses'),
     'C13': _mt('Bounded: Kani one-step harnesses from every canonical state of 2- and 4-slot tables against an independent canonical-layout encoder; calc_quotient_remainder complete over all hashes.',
                'Bounded in table size; encoder is the oracle.', 'Kani contract harnesses (bounded model checking of the real code)'),
     'C14': _mt('Unbounded Verus proof that CuckooFilter is an exact multiset over fingerprint classes (eviction-chain invariant through all kicks).',
